@@ -144,6 +144,8 @@ def _h_history(ctx, cfg):
         got = getattr(s, kind)(n); n = int(n); want = getattr(m, kind)(n)
         ctx.prove(isinstance(got, list) and _same_list(got, want), kind + "(n)-returns-first-n-remaining",
                   "step %d %s(%d): got %d items, model %d" % (t, kind, n, len(got), len(want)))
+        # the returned list belongs to the caller: whatever is done to it must not show in the stream
+        if isinstance(got, list): got.reverse(); got.append(None); del got[:1]
       else:
         r = getattr(s, kind)(n); n = int(n); getattr(m, kind)(n)
         ctx.prove(r is s, kind + "-returns-self")
